@@ -135,6 +135,7 @@ pub fn draw_plan(prop: &str, index: u64, r: &mut Rng, thorough: bool) -> RunPlan
         _ => WorldKind::Key,
     };
     let mut bulk = None;
+    let mut return_giant = false;
     let mut len = draw_len(r, thorough);
     let cfg = match prop {
         "C01" => base_cfg(prop, WorldKind::Key, C_TREE, O_KPRED | O_KEMPTY, r),
@@ -221,10 +222,15 @@ pub fn draw_plan(prop: &str, index: u64, r: &mut Rng, thorough: bool) -> RunPlan
                 &[0, 1, 2, 3, 7, 8, 9, 15, 16, 17, 31, 33, 63, 64, 65, 127, 128, 129, 255, 257, 511, 513, 1023, 1025, 2047, 4095, 4097, 8191, 16383, 16385, 32767, 65537, 200_000, 262_145]
             };
             // boundary sizes most of the time, any size in between otherwise
-            if index % 2 == 1 {
+            if index % 2 == 1 && !(thorough && index % 20_000 == 10_003) {
                 // general histories: the arena may have been much fuller earlier than it is at export time
                 c.universe = *r.pick(&[64, 1024, 1 << 20]);
                 return RunPlan { cfg: c, len: draw_len(r, thorough).max(if r.chance(1, 2) { 200 } else { 40 }), bulk: None, ord_bulk: None };
+            }
+            if thorough && index % 20_000 == 10_003 {
+                // giant build, see the end of this function
+                len = 8;
+                return_giant = true;
             }
             let n = if r.chance(2, 3) { *r.pick(sizes) } else { r.range(0, if thorough { 300_000 } else { 20_000 }) as usize };
             let order = r.below(6) as u8;
@@ -235,9 +241,11 @@ pub fn draw_plan(prop: &str, index: u64, r: &mut Rng, thorough: bool) -> RunPlan
                 // keep the sorted-list twin out of quadratic insertion cost
                 c.colls = C_TREE;
             }
-            bulk = Some((n, order, churn));
+            if !return_giant {
+                bulk = Some((n, order, churn));
+                len = n + 2;
+            }
             c.key_ty = 0;
-            len = n + 2;
             c
         }
         "C20" => base_cfg(prop, WorldKind::Key, C_TREE | C_LIST, O_MON, r),
@@ -289,6 +297,18 @@ pub fn draw_plan(prop: &str, index: u64, r: &mut Rng, thorough: bool) -> RunPlan
         cfg.sweep_mode = 1;
         ord_bulk = Some((n, r.below(2) as u8));
         len = 14 + r.below(6) as usize;
+    }
+    // ... and of the expiring-key tree (C07: the export of it; C19: its allocation)
+    if thorough && bulk.is_none() && ((prop == "C07" && index % 2_000_000 == 1_000_003) || (prop == "C19" && index % 20_000 == 10_003)) {
+        let n: i32 = (1 << 25) + 7;
+        cfg.key_ty = r.below(2) as u8;
+        cfg.colls = C_TREE;
+        cfg.key_lo = 0;
+        cfg.universe = i32::MAX / 2;
+        cfg.cap = 8;
+        cfg.t0 = if cfg.key_ty == 1 { 3 } else { 1000 };
+        ord_bulk = Some((n, r.below(2) as u8));
+        len = 6 + r.below(5) as usize;
     }
     RunPlan { cfg, len, bulk, ord_bulk }
 }
